@@ -110,7 +110,7 @@ def cases(run: Run):
         pattern[-1] = "obs"
         m = sum(dims)
         c = {
-            "n": n, "dims": dims, "alpha": alpha, "kappa": kappa, "beta": beta, "resample": rng.random() < 0.5, "flow": rng.choice(["direct", "engine", "results"]), "pattern": pattern, "tuning": tuning,
+            "n": n, "dims": dims, "alpha": alpha, "kappa": kappa, "beta": beta, "resample": rng.random() < 0.5, "flow": rng.choice(["direct", "engine", "results"]), "companion": rng.random() < 0.5, "pattern": pattern, "tuning": tuning,
             "x0": [Fraction(rng.randint(-20, 20), 4) for _ in range(n)], "L0": rand_lower(rng, n),
             "F": [[Fraction(rng.randint(-2, 2), rng.choice([4, 8, 16])) + (1 if i == j else 0) for j in range(n)] for i in range(n)],
             "Lq": [[(Fraction(rng.choice([1, 2]), 4) if i == j else Fraction(0)) for j in range(n)] for i in range(n)],
@@ -170,6 +170,13 @@ def impl_run(c):
     steps = []
     import copy
 
+    # a second filter of the same dimensions living in the same interpreter, stepped as a scenario steps its estimates: all predictions first, then
+    # all updates - one filter's step must not leak into another's
+    companion = None
+    if c.get("companion") and c.get("flow") == "direct":
+        companion = copy.deepcopy(f)
+        companion.est_x = companion.est_x + 1.0
+        companion.est_p = companion.est_p * 3.0  # another covariance: its sigma points spread differently
     engine = c.get("flow") in ("engine", "results")
     results = c.get("flow") == "results"  # every step handed back to the agent's filter through its result object
     for k, kind in enumerate(c["pattern"]):
@@ -181,6 +188,8 @@ def impl_run(c):
             worker.getPredictionResult().apply(f)
         else:
             f.predict(ScenarioTime(60.0 * (k + 1)))
+            if companion is not None:
+                companion.predict(ScenarioTime(60.0 * (k + 1)))
         rec = {"kind": kind, "pred_x": f.pred_x.copy(), "pred_p": f.pred_p.copy()}
         obs = make_obs(c, c["ys"][k])
         if kind == "forecast-miss":
@@ -202,6 +211,8 @@ def impl_run(c):
         if kind not in ("forecast-miss", "none"):
             rec.update(S=f.innov_cvr.copy(), C=f.cross_cvr.copy(), K=f.kalman_gain.copy())
         rec.update(est_x=f.est_x.copy(), est_p=f.est_p.copy())
+        if companion is not None:
+            companion.update(make_obs(c, [y + 1 for y in c["ys"][k]]) if kind == "obs" else [])
         steps.append(rec)
     return {"w": w, "steps": steps}
 
